@@ -1,2 +1,7 @@
-import Tumfl.Props.C11
-#print axioms Tumfl.Props.C11_roundtrip
+import Tumfl.Props.C17
+#print axioms Tumfl.Props.C17_links
+#print axioms Tumfl.Props.C17_walk
+#print axioms Tumfl.Inst.schema_links
+#print axioms Tumfl.Inst.schema_walk
+#print axioms Tumfl.Inst.schema_exercised
+#print axioms Tumfl.Inst.schema_no_mixed
